@@ -156,7 +156,20 @@ class FalsyNM(Hooks, NodeMixin):
         return "FalsyNM(%s)" % (self.name,)
 
 
-FAMILIES = ("NM", "LM", "Node", "AnyNode", "MIX", "VALNM", "VALLM", "FALSY")
+class FalsyAny(Hooks, AnyNode):
+    def __len__(self):
+        return len(self.children)
+
+
+class FalsyNode(Hooks, Node):
+    def __len__(self):
+        return len(self.children)
+
+    def __bool__(self):
+        return False
+
+
+FAMILIES = ("NM", "LM", "Node", "AnyNode", "MIX", "VALNM", "VALLM", "FALSY", "FALSYANY", "FALSYNODE")
 
 
 def base_family(family):
@@ -176,6 +189,10 @@ def make_nodes(family, k):
         return [ValNM("n%d" % i, i % 2) for i in range(k)]
     if family == "VALLM":
         return [ValLM("n%d" % i, i % 2) for i in range(k)]
+    if family == "FALSYANY":
+        return [FalsyAny(id="n%d" % i, name="n%d" % i) for i in range(k)]
+    if family == "FALSYNODE":
+        return [FalsyNode("n%d" % i) for i in range(k)]
     if family == "FALSY":
         return [FalsyNM("n%d" % i, i % 2) for i in range(k)]
     if family == "NM":
@@ -299,6 +316,12 @@ NONNODES = {
     "none": lambda: None,
     "dict": lambda: {},
     "plainclass": lambda: _Plain(),
+    # falsy non-nodes: a truthiness test instead of 'is None' lets them through
+    "zero": lambda: 0,
+    "emptystr": lambda: "",
+    "emptylist": lambda: [],
+    "false": lambda: False,
+    "emptydict": lambda: {},
 }
 
 
@@ -737,7 +760,7 @@ def all_calls(k, family, maxlen=None, rep=True, nonnodes=True, itkinds=("list",)
         for p in [None] + U:
             yield ("setparent", n, p)
         if nonnodes and base_family(family) != "LM":
-            for kind in ("object", "str"):
+            for kind in ("object", "str", "zero"):
                 yield ("setparent", n, ("nonnode", kind))
     for n in U:
         yield ("delchildren", n)
